@@ -190,7 +190,7 @@ let cmd_alloc fixed0 (toks : string list) : string =
   let nslots = ref 0 in
   let b = Buffer.create 256 in
   let show_df = function None -> "" | Some AIndexMinus1 -> "!idx-1" | Some ATooBig -> "!toobig"
-                       | Some AHeaderPtr -> "!hdr" | Some ABadFree -> "!badfree" in
+                       | Some ABadFree -> "!badfree" in
   let show_p a = function None -> "0" | Some p -> Printf.sprintf "%d/%d" (iofn p) (iofn (cls a p)) in
   List.iter (fun t ->
     let args = List.map int_of_string (String.split_on_char ',' (String.sub t 1 (String.length t - 1))) in
